@@ -145,8 +145,32 @@ def _agg_of_local(fn, l, depth=0):
 
 
 def exits(fn):
-    """Classify every definition of the return place _0."""
+    """Classify every definition of the return place _0. In an inlined view (wfa.inline) the Err values an inlined helper returns are
+    listed as well (kind 'err' with their variant): control continues to the caller's `?`, whose own exit has no variant of its own."""
     res = []
+    if getattr(fn, "origin", None) is not None:
+        slots = set()
+        for blk in fn.blocks:
+            for s in blk["s"]:
+                if s.get("inl") and s["k"] == "assign" and s["rv"]["k"] == "use" and "move" in s["rv"]["a"] and "p" not in s["rv"]["a"]["move"]:
+                    slots.add(s["rv"]["a"]["move"]["l"])
+        for sl in slots:
+            for (b, i, s) in fn.defs.get(sl, []):
+                if i == "T" or s["k"] != "assign" or "p" in s["lhs"]:
+                    continue
+                rv = s["rv"]
+                if rv["k"] == "agg" and rv.get("agg") == "adt" and rv["adt"] == RESULT and rv["vn"] == "Err":
+                    var = None
+                    if rv["ops"]:
+                        l = op_local(rv["ops"][0], pure=True)
+                        if l is not None:
+                            a = _agg_of_local(fn, l)
+                            if a is not None:
+                                var = a["vn"]
+                        c = rv["ops"][0].get("const")
+                        if c is not None:
+                            var = strip_generics(c.get("ty", "")).split("::")[-1]
+                    res.append(Exit((b, S), "err", variant=var, line=s.get("line"), payload=rv))
     for (b, i, s) in fn.defs.get(0, []):
         if i == "T":
             cn = callee_name(s)
@@ -264,6 +288,9 @@ def trace_cond(fn, op, depth=0):
             base = "core::cmp::" + f["trait"].split("::")[-1] + "::" + f["item"]
         if base in CMP_CALLS:
             return Cond("cmp", CMP_CALLS[base], s["args"][0], s["args"][1], node=(b, "T"))
+        hc = _helper_predicate(fn, s, (b, "T"), depth)
+        if hc is not None:
+            return hc
         return Cond("call", call=s, node=(b, "T"))
     rv = s["rv"]
     if rv["k"] == "bin" and rv["op"] in CMP_OPS:
@@ -277,6 +304,47 @@ def trace_cond(fn, op, depth=0):
     if rv["k"] == "bin" and rv["op"] in ("BitAnd", "BitOr"):
         return Cond("unknown")
     return Cond("unknown")
+
+
+def _helper_predicate(fn, t, node, depth):
+    """`if !is_canonical(value)` with `const fn is_canonical(v: u128) -> bool { v < M }`: the comparison the private predicate makes, with
+    its parameters replaced by the call's arguments (constants stay) — or None when the callee is not such a predicate"""
+    prog = getattr(fn, "prog", None)
+    f = t.get("fn") or {}
+    if prog is None or depth > 4 or f.get("trait"):
+        return None
+    h = prog.fns.get(f.get("def"))
+    if h is None or h.crate != fn.crate or h.get("vis") == "pub" or h.kind == "closure" or h.get("output") != "bool" or len(h.blocks) > 12:
+        return None
+    if sum(1 for blk in h.blocks if blk["t"]["k"] == "return") != 1:
+        return None
+    hc = trace_cond(h, {"copy": {"l": 0}}, depth + 1)
+    if hc.kind != "cmp":
+        return None
+
+    def lift(op):
+        if "const" in op:
+            return op
+        p = op_place(op)
+        if p is None or p.get("p"):
+            return None
+        l = p["l"]
+        # follow plain copies of a parameter inside the helper
+        for _ in range(4):
+            if 1 <= l <= h.arg_count:
+                return t["args"][l - 1] if l - 1 < len(t["args"]) else None
+            d = single_def(h, l)
+            if d is None or d[1] == "T" or d[2]["rv"]["k"] not in ("use", "cast"):
+                return None
+            q = op_place(d[2]["rv"]["a"])
+            if q is None or q.get("p"):
+                return d[2]["rv"]["a"] if "const" in d[2]["rv"]["a"] else None
+            l = q["l"]
+        return None
+    a, b2 = lift(hc.lhs), lift(hc.rhs)
+    if a is None or b2 is None:
+        return None
+    return Cond("cmp", hc.op, a, b2, node=node)
 
 
 class Guard:
